@@ -46,7 +46,7 @@ SpecialForms == {"def", "let", "quote", "quasiquote", "quasiquoteexpand", "defma
 
 \* builtins that need the evaluator or the state
 StateNames == {"trace!", "throw", "atom", "deref", "reset!", "swap!", "apply", "map", "eval",
-               "update", "update-in", "raise!", "boom!", "boom-str!", "rawraise!", "rawboom!", "rawboom-str!", "depth!", "future-call",
+               "update", "update-in", "raise!", "boom!", "boom-str!", "rawraise!", "rawboom!", "rawboom-str!", "go-error", "error-string", "unwrap-error", "panic", "depth!", "future-call",
                "sleep", "future-done?", "future-cancelled?", "future-cancel"}
 BuiltinNames == PureNames \cup StateNames
 
@@ -108,7 +108,7 @@ AbstractV(v, atoms) ==
   CASE v.t = "fn" -> Mk("fn", 0, v.s, <<>>, NoMap)
     [] v.t = "bfn" -> Mk("bfn", 0, "", <<>>, NoMap)
     [] v.t = "atom" -> Mk("atom", 0, "", <<AbstractV(atoms[v.i], atoms)>>, NoMap)
-    [] v.t = "err" -> Mk("err", 0, v.s, <<>>, NoMap)
+    [] v.t = "err" -> Mk("err", 0, v.s, IF v.s = "user" THEN <<v.xs[1]>> ELSE <<>>, NoMap)
     [] v.t \in {"list", "vec"} -> Mk(v.t, 0, "", [k \in 1..Len(v.xs) |-> AbstractV(v.xs[k], atoms)], NoMap)
     [] v.t = "map" -> Mk("map", 0, "", <<>>, [k \in DOMAIN v.m |-> AbstractV(v.m[k], atoms)])
     [] OTHER -> v
@@ -273,6 +273,28 @@ CallBuiltin(name, a, st) ==
   ELSE CASE name = "trace!" -> IF n # 1 THEN R("err", ErrV("builtin"), st)
                                ELSE R("val", a[1], [st EXCEPT !.eff = Append(@, a[1])])
     [] name = "throw" -> IF n # 1 THEN R("err", ErrV("builtin"), st)
+                         ELSE IF a[1].t = "err" THEN R("err", a[1], st) ELSE R("thr", a[1], st)
+    \* host error objects made by the program (README: go-error, unwrap-error, error-string, panic map to Go's
+    \* errors.New, errors.Unwrap, Error() and panic): an error of class "user" carrying its message
+    [] name = "go-error" -> IF n # 1 THEN R("unspec", NilV, st)
+                            ELSE IF a[1].t # "str" THEN R("err", ErrV("builtin"), st)
+                            ELSE R("val", Mk("err", 0, "user", <<a[1]>>, NoMap), st)
+    [] name = "error-string" -> IF n # 1 THEN R("err", ErrV("builtin"), st)
+                                \* (the message of an error that WRAPS another one is not prescribed)
+                                ELSE IF a[1].t = "err" /\ a[1].s = "user" /\ Len(a[1].xs) = 1 THEN R("val", a[1].xs[1], st)
+                                ELSE IF a[1].t = "err" THEN R("unspec", NilV, st)
+                                ELSE R("err", ErrV("builtin"), st)
+    [] name = "unwrap-error" -> IF n # 1 THEN R("err", ErrV("builtin"), st)
+                                ELSE IF a[1].t = "err" /\ a[1].s = "user" /\ Len(a[1].xs) = 1 THEN R("val", NilV, st)     \* errors.New wraps nothing
+                                ELSE IF a[1].t = "err" /\ a[1].s = "user"
+                                     THEN R("val", Mk("err", 0, "user", <<a[1].xs[1]>>, NoMap), st)       \* the original of a panic
+                                ELSE IF a[1].t = "err" THEN R("unspec", NilV, st)
+                                ELSE R("err", ErrV("builtin"), st)
+    \* a Go panic: with an error object it arrives as that error, with any other value as that value thrown
+    [] name = "panic" -> IF n # 1 THEN R("err", ErrV("builtin"), st)
+                         \* ("a panic ... becomes a catchable error that still WRAPS the original": xs[2] marks the wrapper)
+                         ELSE IF a[1].t = "err" /\ a[1].s = "user"
+                              THEN R("err", Mk("err", 0, "user", <<a[1].xs[1], StrV("wrapped")>>, NoMap), st)
                          ELSE IF a[1].t = "err" THEN R("err", a[1], st) ELSE R("thr", a[1], st)
     [] name = "raise!" -> R("err", ErrV("raise"), st)
     [] name = "boom!" -> R("err", ErrV("boom"), st)
@@ -481,7 +503,7 @@ Abstract(v, st) ==
     [] v.t = "bfn" -> Mk("bfn", 0, "", <<>>, NoMap)
     [] v.t = "atom" -> Mk("atom", 0, "", <<Abstract(st.atoms[v.i], st)>>, NoMap)
     [] v.t = "fut" -> Mk("fut", 0, "", <<>>, NoMap)
-    [] v.t = "err" -> Mk("err", 0, v.s, <<>>, NoMap)
+    [] v.t = "err" -> Mk("err", 0, v.s, IF v.s = "user" THEN <<v.xs[1]>> ELSE <<>>, NoMap)
     [] v.t \in {"list", "vec"} -> Mk(v.t, 0, "", [k \in 1..Len(v.xs) |-> Abstract(v.xs[k], st)], NoMap)
     [] v.t = "map" -> Mk("map", 0, "", <<>>, [k \in DOMAIN v.m |-> Abstract(v.m[k], st)])
     [] OTHER -> v
